@@ -344,8 +344,9 @@ func mkOps(N, BL int64, quick bool) []opDef {
 	I := N * BL
 	ops := []opDef{
 		{okAdd, window.EvPass, 1}, {okAdd, window.EvPass, 3},
-		// response times on both sides of the default statistic maximum (60000 ms): sums are sums
-		{okAdd, window.EvRt, 7}, {okAdd, window.EvRt, 70000}, {okAdd, window.EvComplete, 1},
+		// response times on both sides of the default statistic maximum (60000 ms): sums are sums; a completion of 0 ms
+		// is an event too (it is the minimum of its window)
+		{okAdd, window.EvRt, 7}, {okAdd, window.EvRt, 70000}, {okAdd, window.EvRt, 0}, {okAdd, window.EvComplete, 1},
 		{okConc, 0, 2}, {okConc, 0, 5}, // two levels: a maximum differs from "the last one seen"
 	}
 	if !quick {
